@@ -84,6 +84,8 @@ pub struct PrintOpts {
     pub name_style: u8,
     /// 0 = `\N` (or `\k<name>` when the group is named), 1 = `\k<name|N>`, 2 = `(?P=name)` when named
     pub backref_style: u8,
+    /// print `(?(c)yes)` without the `|` whenever the no-branch is empty, also when yes is an alternation
+    pub cond_omit_empty_no: bool,
 }
 
 impl PrintOpts {
@@ -265,7 +267,7 @@ impl<'o> P<'o> {
                 // always print the `|` when the yes-branch is an alternation-free but group-wrapped
                 // alternation could be mis-split (finding F13): an explicit `|` keeps the generator
                 // independent of that defect
-                if **no != Empty || contains_alt_shallow(y) {
+                if **no != Empty || (contains_alt_shallow(y) && !self.opts.cond_omit_empty_no) {
                     self.t("|");
                     self.print(no, 1);
                 }
@@ -276,7 +278,7 @@ impl<'o> P<'o> {
                 self.print(c, 0);
                 self.t(")");
                 self.print(y, 1);
-                if **no != Empty || contains_alt_shallow(y) {
+                if **no != Empty || (contains_alt_shallow(y) && !self.opts.cond_omit_empty_no) {
                     self.t("|");
                     self.print(no, 1);
                 }
